@@ -76,7 +76,7 @@ def run(ctx):
         ctx.inst("C12.R1", "%s#dot" % dop, S.verdict(tuple(rets), (S.resort(oracle[op]),)), "dot arm returns %s; canonical set %s" % ([S.show(r) for r in rets], CANON[op]), H.loc(a["body"]))
     # unchecked built-ins
     bic = core.hir_fn("blots_core::functions::BuiltInFunction::call")
-    m = H.matches_on(bic["body"], "functions::BuiltInFunction")[0]
+    m = H.main_match(bic["body"], "functions::BuiltInFunction")
     argsname = H.pat_binds(bic["params"][1])[0]
     # ---- R6 the checked comparison helper
     ctx.rule("C12.R6", "check_ordering answers `expected.contains(ordering)` when the values are comparable and reports an error on every path when they are not (the checked operators never answer on incomparable operands; only ugt/ult/ugte/ulte do)", floor=2)
@@ -126,7 +126,10 @@ def run(ctx):
             if v not in UCANON:
                 continue
             t = S.norm(a["body"], S.Env(roles={argsname: ("args",)}))
-            ok, d = False, S.show(t)
+            # not the modelled shape (a shared closure / helper, another way of matching the ordering): no verdict, except for the
+            # one positively wrong shape we can name: the operands compared in the other order
+            swapped = ("try", ("call", "compare", ("index", ("args",), ("lit", "1")), ("index", ("args",), ("lit", "0"))))
+            ok, d = (False if S.contains(t, swapped) else None), S.show(t)
             if t[0] == "match" and t[1] == ("try", ("call", "compare", ("index", ("args",), ("lit", "0")), ("index", ("args",), ("lit", "1")))):
                 true_sets, rest_false, other = set(), False, False
                 for pat, body in t[2]:
